@@ -20,7 +20,7 @@ use std::os::unix::net::UnixStream;
 use std::sync::{Arc, Condvar, Mutex, RwLock};
 use std::time::{Duration, Instant};
 use vhost::vhost_user::message::*;
-use vhost::vhost_user::{Backend, Listener};
+use vhost::vhost_user::{Backend, GpuBackend, Listener};
 use vhost_user_backend::bitmap::BitmapMmapRegion;
 use vhost_user_backend::{VhostUserBackend, VhostUserBackendMut, VhostUserDaemon, VringMutex, VringRwLock, VringT};
 use virtio_queue::QueueT;
@@ -103,10 +103,25 @@ pub struct TB<V> {
     pub backends: Mutex<Vec<Backend>>,
     /// optional gate that blocks the `acked_features` callback ("inside the handler"): (entered, released)
     pub gate: Mutex<Option<Arc<(Mutex<(bool, bool)>, Condvar)>>>,
+    /// scripted outcome of the optional device-level callbacks (X03): "ok" | "fail" | "file"
+    pub dev: Mutex<String>,
+    pub gpus: Mutex<Vec<GpuBackend>>,
+    /// files the device callbacks received or handed out (kept open so that their identity stays comparable)
+    pub devfiles: Mutex<Vec<File>>,
     _v: PhantomData<fn() -> V>,
 }
 
 impl<V> TB<V> {
+    fn dev_fails(&self) -> bool {
+        *self.dev.lock().unwrap() == "fail"
+    }
+    fn dev_result(&self) -> std::io::Result<()> {
+        if self.dev_fails() {
+            Err(std::io::Error::other("scripted device failure"))
+        } else {
+            Ok(())
+        }
+    }
     fn block_if_gated(&self) {
         let gate = self.gate.lock().unwrap().clone();
         if let Some(g) = gate {
@@ -129,6 +144,9 @@ impl<V> TB<V> {
             listeners: Mutex::new(Vec::new()),
             backends: Mutex::new(Vec::new()),
             gate: Mutex::new(None),
+            dev: Mutex::new("ok".to_string()),
+            gpus: Mutex::new(Vec::new()),
+            devfiles: Mutex::new(Vec::new()),
             _v: PhantomData,
         }
     }
@@ -166,11 +184,58 @@ impl<V: VringT<GM> + Send + Sync + 'static> VhostUserBackend for TB<V> {
         self.log.push(json!({"ev": "cb", "cb": "set_event_idx", "v": limbs(enabled as u64)}));
     }
     fn get_config(&self, offset: u32, size: u32) -> Vec<u8> {
-        (0..size).map(|i| (offset as u8).wrapping_add(i as u8)).collect()
+        let fail = self.dev_fails();
+        let n = if fail { size.wrapping_add(1) % 300 } else { size };
+        let data: Vec<u8> = (0..n).map(|i| (offset as u8).wrapping_add(i as u8)).collect();
+        self.log.push(json!({"ev": "dcb", "cb": "get_config", "off": offset, "size": size, "ret": bytes_json(&data)}));
+        data
     }
     fn set_config(&self, offset: u32, buf: &[u8]) -> std::io::Result<()> {
         self.log.push(json!({"ev": "cb", "cb": "set_config", "v": limbs(offset as u64), "len": buf.len()}));
-        Ok(())
+        self.log.push(json!({"ev": "dcb", "cb": "set_config", "off": offset, "data": bytes_json(buf)}));
+        self.dev_result()
+    }
+    fn get_shared_object(&self, uuid: VhostUserSharedMsg) -> std::io::Result<File> {
+        let mut rec = json!({"ev": "dcb", "cb": "get_shared_object", "uuid": bytes_json(uuid.uuid.as_bytes()), "file": "none"});
+        let r = self.dev_result().map(|_| {
+            let f = memfd("sharedobj", 4096);
+            rec["file"] = json!(fd_id(f.as_raw_fd()));
+            self.devfiles.lock().unwrap().push(f.try_clone().unwrap());
+            f
+        });
+        self.log.push(rec);
+        r
+    }
+    fn set_gpu_socket(&self, gpu_backend: GpuBackend) -> std::io::Result<()> {
+        self.log.push(json!({"ev": "dcb", "cb": "set_gpu_socket"}));
+        self.gpus.lock().unwrap().push(gpu_backend);
+        self.dev_result()
+    }
+    fn set_device_state_fd(&self, direction: VhostTransferStateDirection, phase: VhostTransferStatePhase, file: File) -> std::io::Result<Option<File>> {
+        let mut rec = json!({"ev": "dcb", "cb": "set_device_state_fd", "dir": direction as u32, "phase": phase as u32,
+            "got": fd_id(file.as_raw_fd()), "file": "none"});
+        self.devfiles.lock().unwrap().push(file);
+        let h = self.dev.lock().unwrap().clone();
+        let r = match h.as_str() {
+            "fail" => Err(std::io::Error::other("scripted device failure")),
+            "file" => {
+                let f = memfd("statechan", 4096);
+                rec["file"] = json!(fd_id(f.as_raw_fd()));
+                self.devfiles.lock().unwrap().push(f.try_clone().unwrap());
+                Ok(Some(f))
+            }
+            _ => Ok(None),
+        };
+        self.log.push(rec);
+        r
+    }
+    fn check_device_state(&self) -> std::io::Result<()> {
+        self.log.push(json!({"ev": "dcb", "cb": "check_device_state"}));
+        self.dev_result()
+    }
+    fn get_shmem_config(&self) -> std::io::Result<VhostUserShMemConfig> {
+        self.log.push(json!({"ev": "dcb", "cb": "get_shmem_config"}));
+        self.dev_result().map(|_| VhostUserShMemConfig::new(3, &[0x1000, 0x2_0000_0000, 0x7000]))
     }
     fn update_memory(&self, mem: GM) -> std::io::Result<()> {
         *self.updates.lock().unwrap() += 1;
@@ -288,6 +353,21 @@ impl<V: VringT<GM> + Send + Sync + 'static> VhostUserBackendMut for TBMut<V> {
     }
     fn set_backend_req_fd(&mut self, backend: Backend) {
         self.0.set_backend_req_fd(backend)
+    }
+    fn get_shared_object(&mut self, uuid: VhostUserSharedMsg) -> std::io::Result<File> {
+        self.0.get_shared_object(uuid)
+    }
+    fn set_gpu_socket(&mut self, gpu_backend: GpuBackend) -> std::io::Result<()> {
+        self.0.set_gpu_socket(gpu_backend)
+    }
+    fn set_device_state_fd(&mut self, direction: VhostTransferStateDirection, phase: VhostTransferStatePhase, file: File) -> std::io::Result<Option<File>> {
+        self.0.set_device_state_fd(direction, phase, file)
+    }
+    fn check_device_state(&self) -> std::io::Result<()> {
+        self.0.check_device_state()
+    }
+    fn get_shmem_config(&self) -> std::io::Result<VhostUserShMemConfig> {
+        self.0.get_shmem_config()
     }
     fn queues_per_thread(&self) -> Vec<u64> {
         self.0.queues_per_thread()
